@@ -126,6 +126,15 @@ func (a *AcctRequest) Validate() error {
 			return err
 		}
 	}
+	// one octet lengths, one octet argument count
+	for _, f := range []struct {
+		name string
+		n    int
+	}{{"user", a.User.Len()}, {"port", a.Port.Len()}, {"rem_addr", a.RemAddr.Len()}, {"arg_cnt", len(a.Args)}} {
+		if err := checkLen(f.name, f.n, 0xff); err != nil {
+			return err
+		}
+	}
 	return nil
 }
 
@@ -290,6 +299,13 @@ func (a *AcctReply) Validate() error {
 		if err := t.Validate(nil); err != nil {
 			return err
 		}
+	}
+	// both fields have a two octet length
+	if err := checkLen("server_msg", a.ServerMsg.Len(), 0xffff); err != nil {
+		return err
+	}
+	if err := checkLen("data", a.Data.Len(), 0xffff); err != nil {
+		return err
 	}
 	return nil
 }
